@@ -131,6 +131,7 @@ namespace {
         std::vector<u64> pct_points;
         u64 pct_low = 0;
         size_t guided_pos = 0;
+        u64 pauses = 0;
         std::vector<int> choices;
         bool firing = false;
     };
@@ -241,6 +242,23 @@ namespace {
             g_rec.fault("thread_stall");
         }
         g.now += q;
+        // fault: the thread at this decision point is descheduled for a while (everybody else runs on, time passes,
+        // packets arrive) - unlike a thread stall, which stops the whole world
+        bool pause_here = false;
+        if (self && self->st == Runnable && g.pauses < g.cfg.max_pauses) {
+            if (g.cfg.pause_p > 0 && g.sched.chance(g.cfg.pause_p)) pause_here = true;
+            // "hot" sites: in this run, decision points whose site name falls into the chosen hash buckets pause often
+            else if (g.cfg.hot_buckets && ((g.cfg.hot_buckets >> (hash_str(site) & 15)) & 1) && g.sched.chance(g.cfg.hot_pause_p)) pause_here = true;
+            else if (!g.cfg.hot_sites.empty() && std::find(g.cfg.hot_sites.begin(), g.cfg.hot_sites.end(), std::string(site)) != g.cfg.hot_sites.end() && g.sched.chance(g.cfg.hot_pause_p)) pause_here = true;
+        }
+        if (pause_here) {
+            g.pauses++;
+            self->st = Blocked;
+            self->pred = nullptr;
+            self->deadline = g.now + 1 + static_cast<i64>(g.sched.below(static_cast<u64>(std::max<i64>(1, g.cfg.pause_max_ns))));
+            self->what = "paused (descheduled)";
+            g_rec.fault("thread_pause");
+        }
 
         Thr* next = nullptr;
         std::vector<Thr*> en;
